@@ -410,6 +410,11 @@ class Runner:
             return int(f"k{s[2]}" in self.dicts[s[1]])
         if k == "ru":
             c = self.pool[s[1]]
+            if len(s) > 2:
+                # a rewrite of the live circuit just before the read: remove_non_adjacent_bs / compress_mode_swaps
+                # preserve U_full (property C09), so the model treats the step as a plain read - and the rewritten
+                # circuit must keep following its Parameters in every later step
+                getattr(c, s[2])()
             u = c.U_full
             return [int(u.shape[0]), [[[float(x.real), float(x.imag)] for x in row] for row in u]]
         if k == "rparams":
@@ -501,7 +506,7 @@ class Runner:
             except NotImplementedError:
                 out = {"err": "OtherError"}
             except Exception as e:  # noqa: BLE001
-                out = {"err": type(e).__name__}
+                out = {"err": cg.err_name_for(s, e)}
             after = self.snap()
             obs.append([out, after])
             k = s[0]
@@ -796,7 +801,10 @@ class Gen:
         r = self.rng
         users = self.circuits_using(pid)
         if users and r.random() < 0.7:
-            self.add(["ru", r.choice(users)])
+            if r.random() < 0.3:
+                self.add(["ru", r.choice(users), r.choice(["remove_non_adjacent_bs", "remove_non_adjacent_bs", "compress_mode_swaps"])])
+            else:
+                self.add(["ru", r.choice(users)])
         elif r.random() < 0.3:
             self.add([r.choice(["rget", "rmin", "rmax", "rhas"]), pid])
 
